@@ -165,6 +165,8 @@ def verify_function(prog, spec, con, mode='seq', options=None):
                 old_s = stf.lk_old
             if getattr(stf, 'lk_post', None) is not None:
                 post_s = stf.lk_post.copy()
+                post_s.trace = list(stf.trace)      # facts about the execution (calls made, locks) are those of the whole path
+                post_s.held = getattr(stf, 'held', ())
         for c in con.of('ghostsync'):
             # `ghostsync view(m) := expr`: the abstract contents of the map object are, by definition, the contents of
             # its current table at this (quiescent) point
